@@ -466,34 +466,6 @@ theorem error_bound_unif {ι : Type} [Fintype ι] (A : ι → ι → α) (e τ :
 
 /-! ## 8. non-vacuity over ℚ -/
 
-/-- uniform radial axis `r ∈ [0, 3]`, three cells, `h = 1`, centres `1/2, 3/2, 5/2` -/
-def axU : Axis ℚ := mkAxisNL 3 3
-
-theorem axU_WF : axU.WF := mkAxisNL_WF 3 3 (by norm_num) (by norm_num)
-
-def meshU (k : Kind) : Mesh ℚ :=
-  { kind := k, ax := axU, ay := unitAxis, az := unitAxis,
-    sinC := fun _ => 1/2, sinF := fun _ => 1/3, cosF := fun _ => 1/4, pi := 3 }
-
-theorem axU_cen_pos (i : ℕ) (h1 : 1 ≤ i) : 0 < axU.cen i := by
-  have : (1 : ℚ) ≤ i := by exact_mod_cast h1
-  simp only [axU, mkAxisNL]
-  norm_num
-  linarith
-
-theorem meshU_WF (k : Kind) : (meshU k).WF where
-  wx := axU_WF
-  wy := Examples.unitAxis_WF
-  wz := Examples.unitAxis_WF
-  rpos := fun _ i h1 _ => axU_cen_pos i h1
-  rf0 := by
-    intro _ f _
-    show 0 ≤ axU.fc f
-    simp only [axU, mkAxisNL]
-    positivity
-  spos := by intro _ j _ _; norm_num [meshU]
-  pipos := by norm_num [meshU]
-
 /-- cylindrical: cell 2 (`r_c = 3/2`, `h = 1`), `φ = r²` gives exactly `4` on the concrete mesh -/
 example (D : FaceFld ℚ) (φ : CellFld ℚ) (hD1 : D .x (2,1,1) = 1) (hD0 : D .x (1,1,1) = 1)
     (hφ : φ (2,1,1) = (3/2) ^ 2) (hφe : φ (3,1,1) = (5/2) ^ 2) (hφw : φ (1,1,1) = (1/2) ^ 2) :
